@@ -161,12 +161,24 @@ class SymCtx(_Base):
     def assumed(self, label, why):
         self.run.assumed_used[label] = why
 
-    def same_angle(self, label, a, b, lo, using=None):
+    def principal(self, label, a, using=None):
+        """for an angle proved to lie in (-pi, pi]: make the sign relations between the angle and its (cos, sin) available
+        (cos > 0 iff |a| < pi/2, sin > 0 iff 0 < a < pi, ...): trusted facts about cos/sin on the principal interval"""
+        self.run.oblige(label + ".in_principal_interval", "lemma", sym.And(a > -self.pi, a <= self.pi), using=using)
+        e = sym.real_expr(a)
+        cc, ss = sym.cossin(e)
+        sym._sign_axioms_facts(self.run, label, e, cc, ss)
+
+    def same_angle(self, label, a, b, lo, using=None, closed="left"):
         """a == b from equal (cos, sin) and a, b in the same half-open interval [lo, lo+2pi):
         obligations for the premises, then the conclusion is assumed (injectivity of
         t -> (cos t, sin t) on a half-open interval of length 2pi: trusted)"""
         two_pi = 2 * self.pi
-        prem = sym.And(sym.cos(a) == sym.cos(b), sym.sin(a) == sym.sin(b), a >= lo, a < lo + two_pi, b >= lo, b < lo + two_pi)
+        if closed == "left":
+            rng = sym.And(a >= lo, a < lo + two_pi, b >= lo, b < lo + two_pi)
+        else:
+            rng = sym.And(a > lo, a <= lo + two_pi, b > lo, b <= lo + two_pi)
+        prem = sym.And(sym.cos(a) == sym.cos(b), sym.sin(a) == sym.sin(b), rng)
         self.run.oblige(label + ".premises", "lemma", prem, using=using)
         self.run.axioms_used.add("t -> (cos t, sin t) is injective on any half-open interval of length 2pi")
         self.run.add_fact("lemma", label, sym.lift_bool(a == b))
@@ -267,7 +279,15 @@ class ConcCtx(_Base):
     def assumed(self, label, why):
         pass
 
-    def same_angle(self, label, a, b, lo, using=None):
+    def principal(self, label, a, using=None):
+        """for an angle proved to lie in (-pi, pi]: make the sign relations between the angle and its (cos, sin) available
+        (cos > 0 iff |a| < pi/2, sin > 0 iff 0 < a < pi, ...): trusted facts about cos/sin on the principal interval"""
+        self.run.oblige(label + ".in_principal_interval", "lemma", sym.And(a > -self.pi, a <= self.pi), using=using)
+        e = sym.real_expr(a)
+        cc, ss = sym.cossin(e)
+        sym._sign_axioms_facts(self.run, label, e, cc, ss)
+
+    def same_angle(self, label, a, b, lo, using=None, closed="left"):
         pass
 
     def eq(self, a, b, rtol=None, atol=None, scale=None):
